@@ -4,7 +4,9 @@
 //! usage: pgharness <PROP> --seed S --cases N [--shard i/n] [--only k] [--tier quick|thorough]
 mod common;
 mod rng;
+mod c08;
 mod c19;
+mod graphs;
 
 use common::Ctx;
 use std::io::Write;
@@ -39,6 +41,7 @@ fn main() {
     std::panic::set_hook(Box::new(|_| {}));
     let mut ctx = Ctx { seed, tier_thorough: thorough, out: std::io::BufWriter::new(std::io::stdout()) };
     let run: fn(&mut Ctx, u64) = match prop.as_str() {
+        "C08" => c08::run,
         "C19" => c19::run,
         _ => { eprintln!("unknown property {}", prop); std::process::exit(2); }
     };
